@@ -22,7 +22,13 @@ def chance(rng, p): return rng.random() < p
 def srt_time(rng, ms=None):
     if ms is None: ms = rng.choice([0, 1, 999, 1000, 59999, 3599999, 360000000 - 1, rng.randrange(0, 7200000), rng.randrange(0, 7200000)])
     h, r = divmod(ms, 3600000); m, r = divmod(r, 60000); s, r = divmod(r, 1000)
-    return ("%03d" if (h > 99 or chance(rng, 0.05)) else "%02d") % h + ":%02d:%02d,%03d" % (m, s, r)
+    hh = ("%03d" if (h > 99 or chance(rng, 0.05)) else "%02d") % h
+    k = rng.random()
+    # hour fields of any width (the SRT writer prints 1000:00:00,000 from 1000 h on); int() refuses more than 4300 digits
+    if k < 0.04: hh = pick(rng, ["1000", "9999", "0100", "00000", "12345", "1" + "0" * rng.randrange(4, 40), "0" * rng.randrange(4, 40) + "7"])
+    elif k < 0.046: hh = pick(rng, "0119") * pick(rng, [4299, 4300, 4301, 4302, 4400])
+    elif k < 0.05: hh = pick(rng, ["1", "", "1 0", "１２"])
+    return hh + ":%02d:%02d,%03d" % (m, s, r)
 
 def closer(rng, name):
     """the end tag of <name>; one in eight is missing, doubled, of another name, in another case, or preceded by a stray one"""
@@ -67,6 +73,34 @@ def vtt_time(rng, ms, hours=None):
     if hours is None: hours = h > 0 or chance(rng, 0.3)
     return (("%02d:" % h) if hours else "") + "%02d:%02d.%03d" % (m, s, r)
 
+VTT_FMT = ["b", "i", "u", "c", "c.yellow", "c.bg_blue.lime", "v Bob", "lang en", "b.x", "i"]
+
+def vtt_wrap(rng, inner, depth, sloppy=0.06):
+    """inner wrapped in `depth` formatting tags (innermost first); a closing tag is now and then missing / doubled / of another name"""
+    for _ in range(depth):
+        t = pick(rng, VTT_FMT); name = t.split()[0].split(".")[0]
+        inner = "<%s>%s%s" % (t, inner, closer(rng, name) if chance(rng, sloppy * 8) else "</%s>" % name)
+    return inner
+
+def vtt_ruby(rng, b, e):
+    """one ruby element: one to three base / annotation pairs; the annotation holds formatting nested zero to three deep (two deep and
+    more is where the parser returns to a span inside the <rt>), optionally text next to it and a timestamp tag; </rt> is omitted in one
+    of four; base text or another <rt> follows inside the same ruby element; the ruby end tag is usually there"""
+    parts = []
+    for j in range(rng.choice([1, 1, 2, 2, 3])):
+        base = pick(rng, ["漢", "字", "base", "a", "x y", "東京", "B", "", "&amp;"]) if (j or chance(rng, 0.9)) else ""
+        ann = pick(rng, ["かん", "じ", "x", "ann", "to kyo", "y", "&lt;"])
+        d = rng.choice([0, 0, 1, 1, 2, 2, 2, 3])
+        ann = vtt_wrap(rng, ann, d)
+        k = rng.random()
+        if k < 0.12: ann = pick(rng, ["p", "pre "]) + ann
+        elif k < 0.24: ann = ann + pick(rng, ["s", " post"])
+        elif k < 0.30: ann = ann + vtt_wrap(rng, "z", rng.choice([1, 2]))
+        elif k < 0.36: ann = "<%s>" % vtt_time(rng, rng.choice([b, e, (b + e) // 2])) + ann
+        parts.append(base + pick(rng, ["<rt>", "<rt>", "<rt>", "<rt.small>", "<RT>"]) + ann + ("" if chance(rng, 0.25) else "</rt>"))
+    tail = pick(rng, ["", "", "tail", " more", "末", vtt_wrap(rng, "t", 1)])          # the last is a tag directly inside <ruby>: recorded structure
+    return "<ruby>" + "".join(parts) + tail + (closer(rng, "ruby") if chance(rng, 0.3) else "</ruby>")
+
 def vtt_text(rng, b, e, depth=0, ruby=True):
     out = []
     for _ in range(rng.randrange(1, 4)):
@@ -75,6 +109,9 @@ def vtt_text(rng, b, e, depth=0, ruby=True):
         elif k < 0.75:
             t = pick(rng, ["b", "i", "u", "c", "c.red", "c.bg_blue.lime", "c.unknown", "v Bob", "v.loud Mary Ann", "lang en", "lang", "lang fr-CA", "b.x", "q"])
             out.append("<%s>%s%s" % (t, vtt_text(rng, b, e, depth + 1, ruby), closer(rng, t.split()[0].split(".")[0])))
+        elif k < 0.83 and ruby and (depth == 0 or chance(rng, 0.2)) and chance(rng, 0.65):
+            # several ruby elements per cue, text between them; below depth 0 this is "formatting around ruby" (recorded structure)
+            out.append(pick(rng, ["", " ", "と"]).join(vtt_ruby(rng, b, e) for _ in range(rng.choice([1, 1, 1, 2, 3]))))
         elif k < 0.83 and ruby and depth == 0:
             out.append("<ruby>%s<rt>%s%s%s%s" % (pick(rng, WORDS[:6]), pick(rng, WORDS[:6]), pick(rng, ["</rt>", "</rt>", "</rt>", ""]), pick(rng, ["", "", "b<rt>c</rt>", "b<rt>c"]),
                                                  closer(rng, "ruby")))
